@@ -38,6 +38,8 @@ def run(chk, model: SegmentModel = None):
         chk.consulted_functions.add(q)
     chk.info["loop"] = m.loop_reports
 
+    if m.error is not None:
+        raise m.error
     # ------------------------------------------------------------------ R15.1 raise reachability
     raise_sites = set()
     for f in (m.segmenter, m.lrb_cls.lookup("make_segment"), m.vr_builder):
@@ -110,6 +112,8 @@ def run(chk, model: SegmentModel = None):
                 "the storage unit label rejects a record length the writer's validator accepts",
                 init.where, witness=SegmentModel.witness(bad[0].st.cons) if bad else None)
     # segmenter accepts every capacity derived from an accepted length: no raise reachable at its entry (R15.1)
+    if m.error is not None and not chk.violations():
+        raise m.error
     chk.require(not any(k[0].endswith(m.segmenter.name) for k in reached), "R15.3",
                 "segmenter-accepts-every-validated-length",
                 "the segmenter refuses a capacity that results from an accepted record length", m.segmenter.where)
